@@ -113,6 +113,22 @@ def main():
             out['results'].append({'mod': c['mod'], 'fn': c['fn'], 'args': c['args'], 'r': r, 'step': i})
             if c.get('mutate'):
                 mutate(val)
+    elif job['kind'] == 'clock':
+        # the system date as an argument: the same calls with the date set BEFORE the library is imported ('before': what a fresh
+        # interpreter started on that day sees) and AFTER the modules were imported on another day ('after')
+        from props import api_common as ac
+        if job['when'] == 'before':
+            sys.modules['datetime'] = ac._Clock(tuple(job['date']))
+            for i, c in enumerate(job['calls'], 1):
+                val, r = do_call(c)
+                out['results'].append({'mod': c['mod'], 'fn': c['fn'], 'args': c['args'], 'r': r, 'step': i})
+        else:
+            for c in job['calls']:
+                importlib.import_module('stdnum.' + c['mod'])
+            with ac.clock(tuple(job['date'])):
+                for i, c in enumerate(job['calls'], 1):
+                    val, r = do_call(c)
+                    out['results'].append({'mod': c['mod'], 'fn': c['fn'], 'args': c['args'], 'r': r, 'step': i})
     elif job['kind'] == 'gate':
         # import window: t1 makes the call first; its import of job['gate'] (a submodule such as stdnum.gb.vat) is held in
         # importlib._bootstrap._find_and_load_unlocked() after the module body has run (no longer marked as initialising) and
